@@ -13,7 +13,7 @@ package cluster
 // target node. Everything runs inside a testing/synctest bubble so that "go OnPurge(id)" has finished when
 // the step is observed.
 //
-// VERIF_IN lines:  <n nodes> <n caches> ; act ; act ...     acts: PU n c | ST n c | DE i | DR i | SS n 0/1 |
+// VERIF_IN lines:  <n nodes> <cache class id> <cache class id> ... ; act ; act ...     acts: PU n c | ST n c | DE i | DR i | SS n 0/1 |
 //                                                                 SD n 0/1 | FO to c hops from
 // VERIF_OUT: one JSON object per line.
 
@@ -63,7 +63,7 @@ type c29Result struct {
 type c29World struct {
 	mu      sync.Mutex
 	db      *sql.DB
-	ncaches int
+	classes []int
 	maxNode int
 	present map[[2]int]bool
 	down    map[int]bool
@@ -129,7 +129,7 @@ func (w *c29World) play(n int) {
 	NodeID = c29NodeName(n)
 	ThisMember = w.member(n, true)
 
-	for c := 0; c < w.ncaches; c++ {
+	for _, c := range w.classes {
 		caches.PurgeLocal(c)
 
 		if w.present[[2]int{n, c}] {
@@ -139,7 +139,7 @@ func (w *c29World) play(n int) {
 }
 
 func (w *c29World) readBack(n int) {
-	for c := 0; c < w.ncaches; c++ {
+	for _, c := range w.classes {
 		_, found := caches.Find(c, "k")
 		w.present[[2]int{n, c}] = found
 	}
@@ -177,7 +177,7 @@ func (w *c29World) observe(status int) c29Step {
 	}
 
 	for n := 0; n <= w.maxNode; n++ {
-		for c := 0; c < w.ncaches; c++ {
+		for _, c := range w.classes {
 			if w.present[[2]int{n, c}] {
 				st.Present = append(st.Present, [2]int{n, c})
 			}
@@ -192,14 +192,27 @@ func c29Run(t *testing.T, idx int, line string) c29Result {
 	head, rest, _ := strings.Cut(line, ";")
 	hf := strings.Fields(head)
 
-	if len(hf) != 2 {
+	if len(hf) < 2 {
 		res.Error = "bad header"
 
 		return res
 	}
 
 	nnodes, _ := strconv.Atoi(hf[0])
-	ncaches, _ := strconv.Atoi(hf[1])
+
+	// the cache classes of this run: any ints (predefined classes 0..11, classes without a cluster name, user classes)
+	classes := []int{}
+
+	for _, f := range hf[1:] {
+		c, err := strconv.Atoi(f)
+		if err != nil {
+			res.Error = "bad header"
+
+			return res
+		}
+
+		classes = append(classes, c)
+	}
 
 	synctest.Test(t, func(t *testing.T) {
 		db, err := sql.Open("sqlite", ":memory:")
@@ -213,7 +226,7 @@ func c29Run(t *testing.T, idx int, line string) c29Result {
 
 		defer db.Close()
 
-		w := &c29World{db: db, ncaches: ncaches, maxNode: nnodes + 2, present: map[[2]int]bool{}, down: map[int]bool{}}
+		w := &c29World{db: db, classes: classes, maxNode: nnodes + 2, present: map[[2]int]bool{}, down: map[int]bool{}}
 
 		savedName, savedNode, savedDB, savedProvider, savedMember := ClusterName, NodeID, systemDB, dbProvider, ThisMember
 		savedTransport, savedHook := http.DefaultTransport, caches.OnPurge
@@ -222,7 +235,7 @@ func c29Run(t *testing.T, idx int, line string) c29Result {
 			ClusterName, NodeID, systemDB, dbProvider, ThisMember = savedName, savedNode, savedDB, savedProvider, savedMember
 			http.DefaultTransport, caches.OnPurge = savedTransport, savedHook
 
-			for c := 0; c < ncaches; c++ {
+			for _, c := range classes {
 				caches.PurgeLocal(c)
 			}
 
